@@ -129,6 +129,11 @@ var Multiply = numericalBinary(func(env envs.Environment, num1 *types.XNumber, n
 		return types.NewXErrorf("number value out of range")
 	}
 
+	// and the numbers of digits, so a number multiplied by itself over and over doubles in length each time
+	if exponentOutOfRange(big.NewInt(int64(factor1.NumDigits()) + int64(factor2.NumDigits()))) {
+		return types.NewXErrorf("number value out of range")
+	}
+
 	return types.NewXNumber(factor1.Mul(factor2))
 })
 
